@@ -1995,6 +1995,35 @@ class Summaries:
             ctx.oblige('precondition', 'str range index in bounds and on a char boundary', ok, facts)
             return res
 
+        @regx(r'^std::str::<impl str>::repeat$|^alloc::str::<impl str>::repeat$')
+        def _(ctx):
+            sv = sval(ctx, ctx.args[0])
+            n = ctx.args[1]
+            if isinstance(sv, StrV) and sv.known is not None and isinstance(n, NumV) and n.sym is None and 0 <= n.k * len(sv.known) <= 4096:
+                return StrV(sv.known * n.k)
+            ok = True
+            if isinstance(n, NumV):
+                lo, hi = eng.bounds(ctx.st, n)
+                ok = hi != INF and hi <= 2 ** 40
+            ctx.oblige('precondition', 'str::repeat: total length does not overflow', ok, 'count %r' % (n,))
+            r = StrV(None, oid=next(_c), prov=('repeat', sv.key() if isinstance(sv, V) else None, n.key() if isinstance(n, V) else None))
+            return r
+
+        @regx(r"^<&(?:'a )?(u8|u16|u32|u64|usize|i32|i64) as std::ops::(Add|Sub|Mul)<(?:&(?:'a )?)?(u8|u16|u32|u64|usize|i32|i64)>>::(add|sub|mul)$|"
+              r"^<(u8|u16|u32|u64|usize|i32|i64) as std::ops::(Add|Sub|Mul)<&(?:'a )?(u8|u16|u32|u64|usize|i32|i64)>>::(add|sub|mul)$")
+        def _(ctx):
+            a = deref(ctx, ctx.args[0])
+            b = deref(ctx, ctx.args[1])
+            op = ctx.callee.rsplit('::', 1)[1]
+            ty = ctx.ret_ty if ctx.ret_ty in INT_RANGES else 'u32'
+            if not (isinstance(a, NumV) and isinstance(b, NumV)):
+                return eng.mk_default(ctx.st, ty)
+            r = {'add': eng.num_add, 'sub': eng.num_sub, 'mul': eng.num_mul}[op](ctx.st, a, b, ty)
+            lo, hi = INT_RANGES[ty]
+            rlo, rhi = eng.bounds(ctx.st, r)
+            ctx.oblige('overflow', 'arithmetic overflow in `%s` on references' % op, rlo >= lo and rhi <= hi, '%r in [%s, %s]' % (r, rlo, rhi))
+            return r
+
         @regx(r'^core::str::<impl str>::split_at$')
         def _(ctx):
             sv = sval(ctx, ctx.args[0])
